@@ -47,7 +47,7 @@ def build(prop, models=None):
         refused = [f for f in translate.FAILED if prop in f[1]]
         if refused:
             return False, "translator refused: " + "; ".join("%s: %s" % (f[0], f[2]) for f in refused), "harness/translate.py"
-        if prop in ("C05", "C09", "C11", "C12", "C18", "C19"):
+        if prop in ("C02", "C04", "C05", "C06", "C07", "C08", "C09", "C10", "C11", "C12", "C13", "C15", "C16", "C17", "C18", "C19"):
             # the data-flow graphs of canonical models, regenerated from the live groups
             try:
                 from . import wiring
